@@ -405,6 +405,11 @@ func Summarise_(fn string) {}
 // instances must not conflict.  Natively the replay binary is built with -race, so a real race
 // makes the run fail by itself.
 func AssertNoRaces(label string) {}
+
+// AssertNoRacesHB: under the engine, every pair of conflicting logged accesses by different
+// goroutine instances must be ordered by happens-before (go, send->receive, unlock->lock).
+// Natively a no-op: the replay runs under the Go race detector.
+func AssertNoRacesHB(label string) {}
 func GlobalWrites() int          { return 0 }
 func JoinBalance() int           { return 0 }
 // Stash/Fetch/StashCount talk to the engine's environment stubs; natively they do nothing (the
